@@ -533,6 +533,53 @@ def variants(obj, fname, k, pool):
     return out
 
 
+# string fields the parser takes from `element.text`: an empty element has text None, so "" is not a value any document yields
+EMPTY_IS_ABSENT = {("Limit", "value_raw")}
+
+
+def declaring_class(obj, fname):
+    """name of the most basic class in the MRO that declares the dataclass field (root-cause oriented signatures)"""
+    name = type(obj).__name__
+    for klass in type(obj).__mro__:
+        if fname in getattr(klass, "__annotations__", {}):
+            name = klass.__name__
+    return name
+
+
+def falsy_variants(obj, fname):
+    """falsy-but-present boundary values of a scalar field (0, 0.0, False, "" for optional strings): a template that
+    tests `{% if x %}` instead of `{% if x is not none %}` drops exactly these"""
+    if (type(obj).__name__, fname) in MARKUP_FIELDS:
+        return []
+    cur = getattr(obj, fname)
+    hint = hints_of(type(obj)).get(fname)
+    if hint is None or fname in ("ref_docs", "doc_fragments"):
+        return []
+    inner, opt = _unwrap(hint)
+    members = typing.get_args(inner) if typing.get_origin(inner) is typing.Union else (inner,)
+    if cur is not None:
+        members = [t for t in members if t is type(cur)]    # the type is fixed by context (e.g. the DIAG-CODED-TYPE of a CODED-VALUE)
+    if fname.endswith("snref") or fname.endswith("snpathref") or (type(obj).__name__, fname) in EMPTY_IS_ABSENT:
+        members = [t for t in members if t is not str]      # a short-name reference cannot be empty (ODX SHORT-NAME pattern)
+    out = []
+    for t in members:
+        if t is bool:
+            out.append(("falsy-bool", False))
+        elif t is int:
+            out.append(("falsy-int", 0))
+        elif t is float:
+            out.append(("falsy-float", 0.0))
+        elif t is str and opt:
+            out.append(("falsy-str", ""))
+    seen, res = set(), []
+    for kind, v in out:
+        if (type(v), v) in seen or (type(cur) is type(v) and cur == v):
+            continue
+        seen.add((type(v), v))
+        res.append((kind, v))
+    return res
+
+
 def encode_value(kind, v):
     """JSON description of a perturbation value (for witnesses / messages)"""
     if v is None or isinstance(v, (bool, int, float, str)):
@@ -611,7 +658,7 @@ def baseline(db):
     return {(d["path"], d["left"], d["right"]) for d in diff(db_tree(db, mask=True), db_tree(db2, mask=True), limit=2000)}
 
 
-def apply_and_roundtrip(db, path, fname, k, pool, variant_index=None, base=frozenset()):
+def apply_and_roundtrip(db, path, fname, k, pool, variant_index=None, base=frozenset(), family="default"):
     """perturb one field of the object at `path`, write the database, load the archive (without resolving
     references) and compare the dataclass images.  The field (and anything touched with it) is restored.
 
@@ -620,10 +667,12 @@ def apply_and_roundtrip(db, path, fname, k, pool, variant_index=None, base=froze
                database is rejected by the parser for reasons of its own, e.g. type constraints)"""
     obj = resolve_path(db, path)
     old = getattr(obj, fname)
-    is_refdocs = fname == "ref_docs" and hasattr(obj, "ref_id")
+    is_refdocs = fname == "ref_docs" and hasattr(obj, "ref_id") and family != "falsy"
     if is_refdocs:
         v = foreign_fragment(obj)
         vs = [("docref", v)] if v else []
+    elif family == "falsy":
+        vs = falsy_variants(obj, fname)
     else:
         vs = variants(obj, fname, k, pool)
     if variant_index is not None:
@@ -631,7 +680,7 @@ def apply_and_roundtrip(db, path, fname, k, pool, variant_index=None, base=froze
         base_index = variant_index
     else:
         base_index = 0
-    last = {"status": "skipped", "kind": None, "diffs": [], "tried": 0, "why": "no-variant"}
+    last = {"status": "skipped", "kind": None, "diffs": [], "tried": 0, "why": "no-variant", "decl": declaring_class(obj, fname)}
     for n, (kind, new) in enumerate(vs):
         n += base_index
         saved = []
@@ -650,7 +699,7 @@ def apply_and_roundtrip(db, path, fname, k, pool, variant_index=None, base=froze
                 if kind in DONOR_KINDS:
                     last["status"], last["why"] = "skipped", "donor-unsuitable:" + str(err)
                     continue
-                if kind.endswith("absent") or kind.endswith("present") or kind.startswith("meta") or kind in ("flip", "docref", "list-shorter"):
+                if kind.endswith("absent") or kind.endswith("present") or kind.startswith("meta") or kind.startswith("falsy") or kind in ("flip", "docref", "list-shorter"):
                     return last
                 continue
             db2, err = load_pdx_bytes(pdx, refresh=False)
@@ -668,7 +717,11 @@ def apply_and_roundtrip(db, path, fname, k, pool, variant_index=None, base=froze
                 d = [] if got == want else [{"path": path + ".ref_docs", "cls": type(obj).__name__, "field": "ref_docs", "left": brief(want), "right": brief(got)}]
             else:
                 d = [x for x in diff(db_tree(db, mask=True), db_tree(db2, mask=True), limit=400) if (x["path"], x["left"], x["right"]) not in base]
-            return {"status": "diff" if d else "same", "kind": kind, "diffs": d[:6], "tried": n + 1, "value": val, "variant": n}
+            res = {"status": "diff" if d else "same", "kind": kind, "diffs": d[:6], "tried": n + 1, "value": val, "variant": n}
+            if family == "falsy" and not d and n + 1 - base_index < len(vs):
+                last = res
+                continue
+            return res
         except Exception as e:  # the harness must survive anything the perturbed object does
             last = {"status": "skipped", "kind": kind, "diffs": [], "tried": n + 1, "why": "harness:" + type(e).__name__ + ":" + str(e)[:100], "variant": n}
         finally:
